@@ -60,17 +60,17 @@ fn oracle(c: &Case, acc: &mut Acc) -> CaseResult {
     let payload = expand(spec.key_seed, 21, c.plen);
     let what = format!("{name} [{:?}/{:?}] {} stateless={} payload {} prior {} forgery {:?}", spec.backend_i, spec.backend_r, if c.r_to_i { "r->i" } else { "i->r" }, c.stateless, c.plen, c.prior, c.forgery);
     if c.stateless {
-        let ti = pair.i.into_stateless_transport_mode().map_err(|x| Fail::new(e(&x)))?;
-        let tr = pair.r.into_stateless_transport_mode().map_err(|x| Fail::new(e(&x)))?;
+        let ti = pair.i.into_stateless_transport_mode().map_err(|x| Fail::setup(e(&x)))?;
+        let tr = pair.r.into_stateless_transport_mode().map_err(|x| Fail::setup(e(&x)))?;
         let (w, r) = if c.r_to_i { (&tr, &ti) } else { (&ti, &tr) };
         let (n, forged, n2): (u64, Vec<u8>, u64) = match &c.forgery {
             Forgery::Nonce(n, n2) => {
-                let m = sl_write(w, *n, &payload, c.plen + 16).map_err(|x| Fail::new(format!("{what}: write: {}", e(&x))))?;
+                let m = sl_write(w, *n, &payload, c.plen + 16).map_err(|x| Fail::setup(format!("{what}: write: {}", e(&x))))?;
                 (*n, m, *n2)
             },
             f => {
                 let n = c.prior as u64;
-                let m = sl_write(w, n, &payload, c.plen + 16).map_err(|x| Fail::new(format!("{what}: write: {}", e(&x))))?;
+                let m = sl_write(w, n, &payload, c.plen + 16).map_err(|x| Fail::setup(format!("{what}: write: {}", e(&x))))?;
                 let forged = match f {
                     Forgery::Flip(p, b) => {
                         let mut x = m.clone();
@@ -89,8 +89,8 @@ fn oracle(c: &Case, acc: &mut Acc) -> CaseResult {
                         let mut other = spec.clone();
                         other.key_seed = mix(spec.key_seed, 0xB2B2);
                         let p2 = drive_to(&other, other.n_msgs())?;
-                        let t2 = if c.r_to_i { p2.r } else { p2.i }.into_stateless_transport_mode().map_err(|x| Fail::new(e(&x)))?;
-                        sl_write(&t2, n, &payload, c.plen + 16).map_err(|x| Fail::new(e(&x)))?
+                        let t2 = if c.r_to_i { p2.r } else { p2.i }.into_stateless_transport_mode().map_err(|x| Fail::setup(e(&x)))?;
+                        sl_write(&t2, n, &payload, c.plen + 16).map_err(|x| Fail::setup(e(&x)))?
                     },
                     Forgery::Reflect => {
                         // delivered back to its own sender
@@ -109,7 +109,7 @@ fn oracle(c: &Case, acc: &mut Acc) -> CaseResult {
                 (n, forged, n)
             },
         };
-        let genuine = sl_write(w, n, &payload, c.plen + 16).map_err(|x| Fail::new(e(&x)))?;
+        let genuine = sl_write(w, n, &payload, c.plen + 16).map_err(|x| Fail::setup(e(&x)))?;
         if forged == genuine && n2 == n {
             acc.skip("forgery equals the genuine message");
             return Ok(());
@@ -120,18 +120,18 @@ fn oracle(c: &Case, acc: &mut Acc) -> CaseResult {
         let got = sl_read(r, n, &genuine, c.plen).map_err(|x| Fail::new(format!("{what}: the genuine message is rejected: {}", e(&x))))?;
         ensure!(got == payload, "{what}: genuine message returned a different payload");
     } else {
-        let mut ti = pair.i.into_transport_mode().map_err(|x| Fail::new(e(&x)))?;
-        let mut tr = pair.r.into_transport_mode().map_err(|x| Fail::new(e(&x)))?;
+        let mut ti = pair.i.into_transport_mode().map_err(|x| Fail::setup(e(&x)))?;
+        let mut tr = pair.r.into_transport_mode().map_err(|x| Fail::setup(e(&x)))?;
         let (w, r) = if c.r_to_i { (&mut tr, &mut ti) } else { (&mut ti, &mut tr) };
         let mut last = Vec::new();
         for k in 0..c.prior {
             let p = expand(spec.key_seed, 30 + k as u64, 3 + k);
-            let m = t_write(w, &p, p.len() + 16).map_err(|x| Fail::new(e(&x)))?;
-            let g = t_read(r, &m, p.len()).map_err(|x| Fail::new(format!("{what}: prior message {k}: {}", e(&x))))?;
+            let m = t_write(w, &p, p.len() + 16).map_err(|x| Fail::setup(e(&x)))?;
+            let g = t_read(r, &m, p.len()).map_err(|x| Fail::setup(format!("{what}: prior message {k}: {}", e(&x))))?;
             ensure!(g == p, "{what}: prior payload");
             last = m;
         }
-        let genuine = t_write(w, &payload, c.plen + 16).map_err(|x| Fail::new(format!("{what}: write: {}", e(&x))))?;
+        let genuine = t_write(w, &payload, c.plen + 16).map_err(|x| Fail::setup(format!("{what}: write: {}", e(&x))))?;
         let forged: Vec<u8> = match &c.forgery {
             Forgery::Flip(p, b) => {
                 let mut x = genuine.clone();
@@ -150,11 +150,11 @@ fn oracle(c: &Case, acc: &mut Acc) -> CaseResult {
                 let mut other = spec.clone();
                 other.key_seed = mix(spec.key_seed, 0xB2B2);
                 let p2 = drive_to(&other, other.n_msgs())?;
-                let mut t2 = if c.r_to_i { p2.r } else { p2.i }.into_transport_mode().map_err(|x| Fail::new(e(&x)))?;
+                let mut t2 = if c.r_to_i { p2.r } else { p2.i }.into_transport_mode().map_err(|x| Fail::setup(e(&x)))?;
                 t2.verif_set_sending_nonce(c.prior as u64);
-                t_write(&mut t2, &payload, c.plen + 16).map_err(|x| Fail::new(e(&x)))?
+                t_write(&mut t2, &payload, c.plen + 16).map_err(|x| Fail::setup(e(&x)))?
             },
-            Forgery::Early => t_write(w, &payload, c.plen + 16).map_err(|x| Fail::new(e(&x)))?,
+            Forgery::Early => t_write(w, &payload, c.plen + 16).map_err(|x| Fail::setup(e(&x)))?,
             Forgery::Replay => {
                 if c.prior == 0 {
                     acc.skip("no earlier message to replay");
